@@ -3,4 +3,6 @@ def run(ctx):
 
     a = factorize_proofs.run(ctx, ["range", "factorize", "convert"])
     b = finalize_proofs.run(ctx, "C05")
-    return a + " " + b
+    from . import chunkreduce_proofs
+
+    return a + " " + b + " " + chunkreduce_proofs.run(ctx, "C05")
